@@ -401,6 +401,107 @@ class AdminTwin(c14.ServerModel):
 e1.register('c18t', lambda **p: AdminTwin(**p))
 
 
+def pubsub_transparency_job(args):
+    """Plain vs instrumented server on a pub/sub client manager: the
+    messages published on the channel are an application-visible effect
+    too (other hosts act on them)."""
+    is_async, mode, admin = args
+    common.setup_imports()
+    import pickle
+    from ..cluster import Hub, make_manager
+    viols = []
+    traces = []
+    for instrumented in (False, True):
+        hub = Hub()
+        mgr = make_manager(is_async, hub, 'H0')
+        kw = dict(namespaces=['/'], manager=mgr, async_handlers=False)
+        if instrumented:
+            w = instrumented_world(is_async, dict(CRED), mode, False, **kw)
+        else:
+            w = ServerWorld(is_async=is_async, **kw)
+            w.uninstrument = lambda: None
+        try:
+            app.install(w, 'func', ['/'], events=('ev',))
+            a, b = w.new_transport(), w.new_transport()
+            if instrumented and admin:
+                adm = w.new_transport()
+                w.recv_packet(adm, 0, ADMIN, None, dict(CRED))
+            trace = []
+            cbs = []
+            role = {}        # remembered after a client has gone
+
+            def obs(label, r):
+                names = dict(w.namer.names)
+                for t, nm in ((a, 'A'), (b, 'B')):
+                    sid = w.sid_of(t, '/')
+                    if sid is not None:
+                        role[names.get(sid, sid)] = nm
+                        role[sid] = nm
+
+                def ren(x):
+                    if isinstance(x, str):
+                        return role.get(x, role.get(names.get(x), x))
+                    if isinstance(x, (list, tuple)):
+                        return [ren(i) for i in x]
+                    if isinstance(x, dict):
+                        return {ren(k): ren(v) for k, v in x.items()}
+                    return x
+                pub = []
+                for m in hub.log:
+                    d = pickle.loads(m)
+                    if d.get('namespace') == ADMIN:
+                        continue
+                    pub.append(ren({k: v for k, v in sorted(d.items())}))
+                del hub.log[:]
+                frames = []
+                for t in (a, b):
+                    fs = []
+                    for f in w.drain(t):
+                        if f[0] != 'pkt':
+                            continue
+                        if f[1] == 0:
+                            f = f[:4] + ({'sid': '<sid>'},)
+                        fs.append(ren(f))
+                    frames.append(fs)
+                trace.append((label, c14._res(ren(r)), frames, pub,
+                              ren(w.take_log()), list(cbs)))
+                del cbs[:]
+            obs('connect A', w.recv_packet(a, 0, '/'))
+            obs('connect B', w.recv_packet(b, 0, '/'))
+            sa = w.sid_of(a, '/')
+            for iq in (False, True):
+                obs(f'emit ignore_queue={iq}', w.api(
+                    'emit', 'e', 1, ignore_queue=iq))
+                obs(f'emit to A ignore_queue={iq}', w.api(
+                    'emit', 'e', (1, b'x'), to=sa, ignore_queue=iq))
+                obs(f'emit cb ignore_queue={iq}', w.api(
+                    'emit', 'q', 2, to=sa, ignore_queue=iq,
+                    callback=lambda *x: cbs.append(x)))
+                obs(f'send skip ignore_queue={iq}', w.api(
+                    'send', 'm', skip_sid=sa, ignore_queue=iq))
+            obs('enter', w.api('enter_room', sa, 'r'))
+            obs('emit room', w.api('emit', 'e', 3, to='r'))
+            obs('leave', w.api('leave_room', sa, 'r'))
+            obs('close', w.api('close_room', 'r'))
+            obs('disconnect ignore_queue', w.api('disconnect', sa,
+                                                 ignore_queue=True))
+            obs('disconnect B', w.api('disconnect', w.sid_of(b, '/')))
+            tick(w)
+            obs('tick', ('ok', None))
+            traces.append(trace)
+        finally:
+            w.uninstrument()
+            w.close()
+    for x, y in zip(*traces):
+        if x != y:
+            viols.append(('C18/transparency/pubsub', f'{"Async" if is_async else ""}'
+                          f'Server on a pub/sub manager, mode {mode}, admin '
+                          f'connected {admin}: at "{x[0]}" plain server '
+                          f'{x[1:]!r:.500} vs instrumented {y[1:]!r:.500}'))
+            break
+    return len(traces[0]), viols
+
+
 def run(tier, seed, result):
     notes = []
     total = 0
@@ -424,6 +525,15 @@ def run(tier, seed, result):
     if eff == 0:
         raise common.HarnessError('no admin request had any effect even in '
                                   'writable development mode: harness broken')
+    npub = 0
+    for n, viols in pmap(pubsub_transparency_job,
+                         [(ia, mode, adm) for ia in (False, True)
+                          for mode in ('development', 'production')
+                          for adm in (True, False)]):
+        npub += n
+        for key, msg in viols:
+            result.violation(key, msg, {'case': msg[:200]})
+    result.add('pubsub_transparency_steps', npub)
     depth = 3 if tier == 'quick' else 5
     for is_async in (False, True):
         for mode in ('development', 'production'):
